@@ -104,10 +104,13 @@ def extract(d, toposort=False):
     return ids_, pos, preds, prio, debug, topo_ok
 
 
-def graph_block(qid, preds, prio, debug, queries):
+def graph_block(qid, preds, prio, debug, queries, names=None):
+    """names: per position (id string, list of tags) -- for alias queries (`asel`), resolved by GM.resolveAll"""
     out = ["Q %s %d" % (qid, len(preds))]
     for k in range(len(preds)):
         out.append("N %d %d %s" % (prio[k], int(debug[k]), " ".join(map(str, preds[k]))))
+    for k, (nid, tags) in enumerate(names or []):
+        out.append("I %d %s %s" % (k, nid, " ".join(tags)))
     out.extend(queries)
     out.append("E")
     return "\n".join(out) + "\n"
@@ -119,6 +122,26 @@ def fmt_set(l):
 
 def sel_query(R, X, T, dbg):
     return "sel %s ; %s ; %s ; %d" % (fmt_set(R) or "", fmt_set(X) or "", fmt_set(T) or "", int(dbg))
+
+
+def alias_tokens(aliases, P):
+    """protocol form of an alias list: r<position> | s:<string>  (None = no restriction)"""
+    if aliases is None:
+        return "-"
+    return " ".join(("r%d" % P[a]) if kind == "ref" else ("s:%s" % a) for kind, a in aliases)
+
+
+def asel_query(R, X, T, dbg, P):
+    return "asel %s ; %s ; %s ; %d" % (alias_tokens(R, P), alias_tokens(X, P), alias_tokens(T, P), int(dbg))
+
+
+def scenario_names(sc, ids_, P):
+    """(id, tags) per position, from the SCENARIO (not from the real graph object's tables)"""
+    out = [(x, []) for x in ids_]
+    for i, s_ in enumerate(sc["specs"]):
+        t = s_["tag"]
+        out[P[i]] = (ids_[P[i]], [] if t is None else ([t] if isinstance(t, str) else list(t)))
+    return out
 
 
 def resolve_alias(sc, alias):
